@@ -32,7 +32,13 @@ VALID = [
     "é = 1\nprint(é)\n",
 ]
 
-FIXED_BAD = [
+COMMENT_ONLY = [
+    "# just a comment\n", "# coding: utf-8\n", "#!/usr/bin/env python\n# -*- coding: utf-8 -*-\n",
+    "# a\n\n# b\n\n", "\n\n# after blank lines\n", "   # indented comment\n", "# no newline at the end",
+    "#\n", "\t# tab then comment\n\n", "# one\n# two\n# three\n",
+]
+
+FIXED_BAD = COMMENT_ONLY + [
     "x = (1,\n", 'x = """abc\n', "if x:\n        y = 1\n    z = 2\n", "x = 1\x00\n", "", "   \n\n", "\t",
     "x = 1\x0c\n", "def (:\n", "x = 'a\n", "\\", "x = 1 \\", "if x:\n\ty=1\n        z=2\n", "\ufeffx = 1\n",
     "x = $\n", "x = 1\r y = 2\n", "x = 0777\n", "a = 1\n  b = 2\n", "\x00", "\n", "pass\n", "x = )\n", "]\n",
@@ -44,7 +50,18 @@ FIXED_BAD = [
 def mutate(rng, text):
     """One malformed-stream mutation of a valid program."""
     kind = rng.choice(["trunc", "trunc", "bracket", "quote", "indent", "dedent", "ctrl", "nul", "delete",
-                       "dup", "tab", "backslash", "empty", "blank"])
+                       "dup", "tab", "backslash", "empty", "blank", "comments", "comments"])
+    if kind == "comments":
+        # only ordinary comments (and blank lines) are left: parses to an empty module
+        how = rng.choice(["all", "all", "blanks", "fixed", "code_removed"])
+        if how == "fixed":
+            return rng.choice(COMMENT_ONLY), kind
+        lines = [("# " + l if l.strip() else l) for l in text.split("\n")]
+        if how == "blanks":
+            lines = [x for l in lines for x in (l, "")]
+        if how == "code_removed":
+            lines = ["# " + text.split("\n")[0], "", "    # what was here is gone", ""]
+        return "\n".join(lines), kind
     if kind == "empty":
         return "", kind
     if kind == "blank":
@@ -225,7 +242,7 @@ def judge(ctx, drv, orc, files, root, out_dir, strategy):
     d = c11.first_diff(impl["json"], c11.model_to_obj(m))
     if d is not None:
         ok = spec_check(drv, info, impl["json"])
-        v.update(kind="broken" if ok else "violation", what=f"database differs from the model at {d}")
+        v.update(kind="broken" if ok else "violation", what=f"database differs from the model at {d}", json=impl["json"])
         return v
     if not spec_check(drv, info, impl["json"]):
         v.update(kind="violation", what="a file is not reported as the property says (single meta/ast/<Error> taxon)",
@@ -271,6 +288,16 @@ def gen_dir(rng):
         files[nm] = t
         bad.append(nm)
         kinds.append(k)
+    if n_good >= 1 and rng.random() < 0.2:
+        # a (bad or empty) file named like a dotted module, and a good file importing that uncollected module
+        mod = rng.choice(["os.path", "xml.dom", "a.b", "pkg.sub.m"])
+        nm = rng.choice([f"{mod}.py", mod.rsplit(".", 1)[0] + "/" + mod.rsplit(".", 1)[1] + ".py" if mod.count(".") > 1 else f"{mod}.py"])
+        t, k = (rng.choice(FIXED_BAD), "fixed") if rng.random() < 0.6 else mutate(rng, rng.choice(VALID))
+        files[nm] = t
+        bad.append(nm)
+        kinds.append(k)
+        g = f"{names[0]}.py"
+        files[g] = f"import {mod}\n" + files[g]
     if n_good >= 1 and bad and rng.random() < 0.4:
         # a good file importing the bad one's module
         g = f"{names[0]}.py"
@@ -341,6 +368,11 @@ def stream_dirs(ctx, drv, orc, n_dirs):
         ({"a.py": "", "b.py": "   \n", "c.py": "x = 1\x00\n"}, ["a.py", "b.py", "c.py"]),
         ({"a.py": "import b\nx = 1\n", "b.py": "import a\n", "c.py": "def (:)\n"}, ["c.py"]),
         ({"a.py": "x = $\n"}, ["a.py"]),
+        ({"a.py": "x = 1\n", "b.py": "# just a comment\n"}, ["b.py"]),
+        ({"a.py": "# coding: utf-8\n", "b.py": "# a\n\n# b\n\n", "c.py": "import a\n"}, ["a.py", "b.py"]),
+        # a bad file named like a dotted module, next to a program importing that (uncollected) module
+        ({"a.py": "import os.path\nx = 1\n", "os.path.py": "x = (1,\n"}, ["os.path.py"]),
+        ({"u.py": "import xml.dom\nimport p.q\ny = 2\n", "xml.dom.py": "def (:)\n", "p.q/r.py": ""}, ["xml.dom.py", "p.q/r.py"]),
         # CPython 3.12's tokenizer raises SystemError (not TokenError) on a NUL after an indented line
         # (seeded change C14-a narrowed the catch-all of safe_full_cleaning and was missed by one seed of two)
         ({"a.py": "x = 1\n", "b.py": "def f():\n    x = 1\ny = 2\x00\n"}, ["b.py"]),
@@ -368,18 +400,22 @@ def stream_dirs(ctx, drv, orc, n_dirs):
             if v.get("corr_broken"):
                 ctx.broken.append("corr:abort-class")
                 ctx.notes.append({"files": files, "cleanup": strategy, "impl": v["impl"], "model": v["model"]})
-            if v["kind"] == "ok":
-                if nontrivial:
+            if v["kind"] == "broken":
+                ctx.broken.append("corr:directories")
+                ctx.notes.append({"files": files, "cleanup": strategy, "what": v["what"], "externals": v["info"],
+                                  "impl": v["impl"], "model": v["model"]})
+            if v["kind"] == "ok" or (v["kind"] == "broken" and "json" in v):
+                if nontrivial and v["kind"] == "ok":
                     ctx.sample({"files": files, "cleanup": strategy, "externals": v["info"],
                                 "taxa(impl=model)": {p: list(r["taxa"]) for p, r in v["json"]["programs"].items()}}, limit=3)
                 # others unaffected: remove the bad files, compare the records of the others (implementation level)
-                if bad and len(files) > len(bad) and ctx.rng.random() < 0.5:
+                if bad and len(files) > len(bad) and (i < len(fixed) or ctx.rng.random() < 0.5):
                     others = {p: t for p, t in files.items() if p not in bad}
                     root2 = base / f"{tag}-others" / "progs"
                     write_files(root2, others)
                     w = judge(ctx, drv, orc, others, root2, root2.parent, strategy)
                     ctx.count("others-unaffected", key, nontrivial=True)
-                    if w["kind"] == "ok":
+                    if w["kind"] == "ok" or (w["kind"] == "broken" and "json" in w):
                         badset = set(bad)
                         for p in others:
                             # NotImporting (Proofs/Collect.lean): no label of p names a bad file's module
@@ -393,9 +429,7 @@ def stream_dirs(ctx, drv, orc, n_dirs):
                                                "impl": {"with": v["json"]["programs"][p], "without": w["json"]["programs"][p]},
                                                "model": "C14_others_unaffected: equal records", "spec": "equal records"}})
             elif v["kind"] == "broken":
-                ctx.broken.append("corr:directories")
-                ctx.notes.append({"files": files, "cleanup": strategy, "what": v["what"], "externals": v["info"],
-                                  "impl": v["impl"], "model": v["model"]})
+                pass
             else:
                 if seen_known >= 2:
                     record_violation(ctx, v, files, strategy)  # enough shrunk instances
